@@ -24,11 +24,11 @@ checks = {
  'C16': dict(cat='exploration', tech='reference-model monitor with ToUpper/ToLower canonicalisation; differently-cased probes on constrained paths',
    text='Stored values must be canonical and idempotent under re-save; differently-cased probes (incl. non-ASCII case pairs) on constrained paths at any depth, indexed or not, must match exactly the canonical equals.', ref='4/C16'),
  'C20': dict(cat='exploration', tech='snapshot oracle: outstanding search consumed after later writes must stay within the twin result taken at evaluation time; index invariant hook',
-   text='A search is evaluated, writes land around its range at slice-capacity boundaries, then the outstanding search is consumed; members must come from the evaluation-time match set.', ref='4/C20'),
+   text='A search is evaluated, writes land around its range at slice-capacity boundaries, then the outstanding search is consumed; members must come from the evaluation-time match set, also after other searches were derived from it.', ref='4/C20'),
  'C11': dict(cat='exploration', tech='offline fault injection on closed directories (files removed/added, index entries removed, schema removed) + Control/Repair oracle + file hashes + model rebuilt from decoded files',
-   text='Generated fault sets are applied to healthy databases; detection must be exact (iff on uuid sets), Repair must converge without touching any object file, and reads/searches must equal a model rebuilt from the decoded files.', ref='4/C11'),
+   text='Generated fault sets are applied to healthy databases; detection must be exact (iff on uuid sets), Repair must converge without touching any object file, and reads/searches must equal a model rebuilt from the decoded files; with several collections loaded on the handle every one of repeated Control calls must give the same verdict.', ref='4/C11'),
  'C14': dict(cat='exploration', tech='alias monitor: reflection walk of reachable addresses + scrambling of every mutable location, snapshot comparison of later reads (race detector in thorough)',
-   text='Objects of generated shapes are stored, then the caller copy and every returned copy are scrambled; later reads must equal the snapshot and share no address with earlier copies; cached reads must equal the decoded file.', ref='4/C14'),
+   text='Objects of generated shapes are stored, then the caller copy and every returned copy are scrambled; later reads must equal the snapshot and share no address with earlier copies; cached reads must equal the decoded file, also after a Repair that re-indexed every file.', ref='4/C14'),
  'C18': dict(cat='exploration', tech='independent on-disk decoder + golden corpus written by the pinned release; model sweep on goldens',
    text='14 golden directories written by the pinned release must open with identical contents, full search matrix, constraints, and stay loadable after writes; directories written by the current code are walked by an independent decoder that encodes the pinned format.', ref='4/C18'),
  'C19': dict(cat='exploration', tech='mutation fuzzing of directories and search arguments under recover() and a CPU-time hang guard, child-per-batch isolation; model cross-check of results of unevaluable queries',
